@@ -192,6 +192,11 @@ Definition const_col (c : cell) (n : nat) : outcome coldata :=
 
 Definition empty_name (s : bytes) : bool := Nat.eqb (length s) 0.
 
+Definition const_type (c : cell) : option ctype :=
+  match c with
+  | CInt _ => Some TInt | CFloat _ => Some TFloat | CBool _ => Some TBool | CStr _ => Some TString | CEnum _ => None
+  end.
+
 Definition apply0 (f : frame) (fn : afn) (dst : bytes) : outcome frame :=
   if ferr f then Ok f
   else
@@ -201,7 +206,17 @@ Definition apply0 (f : frame) (fn : afn) (dst : bytes) : outcome frame :=
         if ctype_eqb t TEnum then Panic else
         do cells <- scatter (repeat (zero_cell t) n) (ix f) vals;
         do c <- col_of_cells t cells; Ok (set_column f dst c)
-    | F0Const c => do col <- const_col c n; Ok (set_column f dst col)
+    | F0Const c =>
+        (* a constant column when the frame covers all rows of its columns; otherwise (FilteredApply, or a frame
+           that was filtered/sliced before) the constant only reaches the rows of the frame, as for func() T *)
+        if Nat.eqb (length (ix f)) n then do col <- const_col c n; Ok (set_column f dst col)
+        else
+          match const_type c with
+          | None => Panic
+          | Some t =>
+              do cells <- scatter (repeat (zero_cell t) n) (ix f) (repeat c (length (ix f)));
+              do col <- col_of_cells t cells; Ok (set_column f dst col)
+          end
     | F0ColName src => Ok (copy f dst src)
     | _ => Ok (with_err f)
     end.
@@ -316,9 +331,17 @@ Definition enum_step (strict : bool) (st : list bytes * list N) (s : option byte
       end
   end.
 
+(* NewFactory rejects a declaration that lists a value twice *)
+Fixpoint nodup_bytes (l : list bytes) : bool :=
+  match l with
+  | [] => true
+  | x :: t => negb (existsb (bytes_eqb x) t) && nodup_bytes t
+  end.
+
 (* enum factory (ecolumn.New): ranks in order of first occurrence unless values are declared *)
 Definition enum_new (data : list (option bytes)) (values : list bytes) : outcome coldata :=
   if (N.to_nat c_maxCardinality <? length values)%nat then Fail
+  else if negb (nodup_bytes values) then Fail
   else
     let strict := negb (Nat.eqb (length values) 0) in
     do r <- ofold (enum_step strict) data (values, []);
@@ -327,6 +350,7 @@ Definition enum_new (data : list (option bytes)) (values : list bytes) : outcome
 (* ecolumn.NewConst: the value is resolved once (even when count = 0), then repeated *)
 Definition enum_new_const (v : option bytes) (n : nat) (values : list bytes) : outcome coldata :=
   if (N.to_nat c_maxCardinality <? length values)%nat then Fail
+  else if negb (nodup_bytes values) then Fail
   else
     let strict := negb (Nat.eqb (length values) 0) in
     match v with
@@ -375,6 +399,7 @@ Definition new_frame (data : list (bytes * newdata)) (order : list bytes) (enums
     let order' := match order with [] => sort_names (map fst data) | _ => order end in
     if negb (Nat.eqb (length order') (length data)) then Ok errf
     else if negb (forallb (fun n => match assocb n data with Some _ => true | None => false end) order') then Ok errf
+    else if negb (nodup_bytes order') then Ok errf
     else
       let step (st : list (bytes * coldata) * nat * list bytes) (n : bytes)
         : outcome (list (bytes * coldata) * nat * list bytes) :=
